@@ -40,6 +40,7 @@ class Mod:
         self.attrgroups = {}   # id -> attr text
         self.namedmd = []      # (name, [ids])  (textual order, may repeat names)
         self.mds = {}          # id -> (distinct, [field texts], [refs ids])
+        self.packed = set()    # names of type definitions whose body is a packed struct
         self.blockaddrs = []   # (function name, block name) of named blocks of named defined functions: available blockaddress targets
         self.uselist = []      # module-level use-list orders on blockaddress constants
 
@@ -47,7 +48,8 @@ class Mod:
 TYNAMES = ["T1", "T2", "T10", "S", "struct.a", "U"]
 GNAMES = ["g1", "g2", "g10", "p", "q", "tab", "x.y"]
 FNAMES = ["f", "main", "h2", "h10", "ext"]
-LNAMES = ["a", "b", "c", "x", "y", "t1", "t2", "t10"]
+# local value names; the quoted numeric ones are NAMES (`%"1"`), distinct from the unnamed values %0, %1, ... of the same function
+LNAMES = ["a", "b", "c", "x", "y", "t1", "t2", "t10", '"0"', '"1"', '"2"']
 BNAMES = ["entry", "loop", "body", "exit", "bb1", "bb2"]
 
 
@@ -74,6 +76,8 @@ def gen_mod(rng, size=1.0):
                 else:
                     fs.append(rng.choice(["i32", "i8", "i8*", "[2 x i16]", "float", "{ i8, i32 }"]))
             m.types[n] = fs
+            if rng.random() < 0.3:
+                m.packed.add(n)         # packed struct body `<{ ... }>`
     m.comdats = rng.sample(["c1", "c2", "c10", "any.x"], rng.randint(0, 2))
     # attribute groups and metadata ids first (so that references can be made)
     for i in rng.sample(range(0, 12), rng.randint(0, 3)):
@@ -406,7 +410,8 @@ def render(m, rng=None, shuffle=False):
     tys = []
     for n in natsorted(m.types):
         body = m.types[n]
-        tys.append("%%%s = type %s" % (n, "opaque" if body is None else "{ %s }" % ", ".join(body)))
+        packed = n in getattr(m, "packed", ())
+        tys.append("%%%s = type %s" % (n, "opaque" if body is None else ("<{ %s }>" if packed else "{ %s }") % ", ".join(body)))
         refs = []
         for fld in (body or []):
             if fld.startswith("%"):
@@ -627,7 +632,7 @@ def faults(rng, text, sk):
         if sk2:
             out.append(("undefined-local", "error", "\n".join(lines[:i] + [nl] + lines[i + 1:]), sk2))
     # duplicated definitions: repeat a definition line (type / comdat / global / metadata)
-    for kind, pat, ns in (("duplicate-type", r"^%([\w.]+) = type \{", "T"), ("duplicate-comdat", r"^\$([\w.]+) = comdat", "C"),
+    for kind, pat, ns in (("duplicate-type", r"^%([\w.]+) = type <?\{", "T"), ("duplicate-comdat", r"^\$([\w.]+) = comdat", "C"),
                           ("duplicate-global", r"^@([A-Za-z_.][\w.]*) = .*global", "G"), ("duplicate-metadata", r"^!(\d+) = ", "M")):
         cands = [(i, re.match(pat, l).group(1)) for i, l in enumerate(lines) if re.match(pat, l)]
         if cands:
@@ -638,7 +643,7 @@ def faults(rng, text, sk):
                 sk2 = ";".join(ents[:idx[0] + 1] + [ents[idx[0]]] + ents[idx[0] + 1:])
                 out.append((kind, "error", "\n".join(lines[:i + 1] + [lines[i]] + lines[i + 1:]), sk2))
     # type redefinitions involving `opaque`: only "opaque first, body later" is tolerated
-    tdefs = [(i, re.match(r"^%([\w.]+) = type \{", l).group(1)) for i, l in enumerate(lines) if re.match(r"^%([\w.]+) = type \{", l)]
+    tdefs = [(i, re.match(r"^%([\w.]+) = type <?\{", l).group(1)) for i, l in enumerate(lines) if re.match(r"^%([\w.]+) = type <?\{", l)]
     if tdefs:
         i, name = rng.choice(tdefs)
         ents = sk.split(";")
